@@ -286,6 +286,9 @@ func runC05(rc *RC) {
 	if !opts.S2S && ch.Chance("workload", 1, 4) {
 		opts.WS = true
 	}
+	if !opts.WS && ch.Chance("workload", 1, 3) {
+		opts.Recv = true // the session was received, not initiated
+	}
 	strat := rc.S.ConfigureStrategy()
 	e := rc.NewE2(opts)
 	if e == nil {
@@ -316,7 +319,7 @@ func runC05(rc *RC) {
 		plans = append(plans, pl)
 	}
 	nPings := ch.Range("workload", 0, 3)
-	rc.Describe("strategy=%s s2s=%v ws=%v chunk=%v callers=%d pings=%d", strat, opts.S2S, opts.WS, opts.Chunk, nCallers, nPings)
+	rc.Describe("strategy=%s s2s=%v ws=%v recv=%v chunk=%v callers=%d pings=%d", strat, opts.S2S, opts.WS, opts.Recv, opts.Chunk, nCallers, nPings)
 
 	perform := func(c *c05Call) {
 		ctx, cancel := context.WithTimeout(e.Ctx, 10*time.Second)
